@@ -51,9 +51,13 @@ def _read_track(chunk):
     while off < len(chunk):
         delta, off = _var_int(chunk, off)
         deltasum += delta
+        if off >= len(chunk):
+            raise SMFError("truncated track")
         event_type = chunk[off]
         off += 1
         if event_type == 0xFF:
+            if off >= len(chunk):
+                raise SMFError("truncated track")
             meta_type = chunk[off]
             off += 1
             num, off = _var_int(chunk, off)
@@ -118,6 +122,8 @@ def _read_midi_length(fileobj):
         # subres = tickdiv & 0xFF
         # never saw one of those
         raise SMFError("Not supported timing interval")
+    if tickdiv == 0:
+        raise SMFError("Invalid timing interval")
 
     # get a list of events and tempo changes for each track
     tracks = []
@@ -158,6 +164,9 @@ def _read_midi_length(fileobj):
         duration /= 10 ** 6
 
         durations.append(duration)
+
+    if not durations:
+        raise SMFError("no tracks")
 
     # return the longest one
     return max(durations)
